@@ -79,6 +79,11 @@ MUTANTS = [
 ]
 
 
+def replay_scope(unit, obl):
+    """the native replay of this property searches per unit, not per obligation: run it once per unit"""
+    return "unit"
+
+
 def replay(unit, obl):
     if unit.startswith("update["):
         return replay_trigger(unit, obl)
